@@ -11,7 +11,7 @@ import rtbuild
 from checks import c03, c12
 
 MODULE = ["LWV.Props.C01", "LWV.Props.C02Full"]
-PARSE_OPS = ("cls", "mp", "eap", "rtp", "it", "crc", "rssi")
+PARSE_OPS = ("cls", "mp", "eap", "rtp", "it", "crc", "rssi", "ie")
 CORPUS_PROPS = ["C02", "C04", "C06", "C08", "C09", "C12"]
 RSSI_SIG = "rssi:buffer-shorter-than-announced-header"
 
@@ -139,8 +139,11 @@ def check(ctx):
             b = v.to_bytes(L, "big") if L else b""
             h = hx(b)
             short += ["cls 0 " + h, "cls 1 " + h, "it " + h, "rtp " + h]
+            if L < 2 or v % 17 == 0:
+                short += ["ie rsn " + h, "ie wpa " + h]
             if L < 2 or v % 257 == 0:
                 short += ["mp 0 " + h, "mp 1 " + h, "eap 0 " + h, "eap 1 " + h, "crc " + h]
+    short.append("version")
     fw.run_suite(ctx, exe, "S-safe/len0-2", short, "parse of a short string")
     ctx.coverage["exhaustive"] = True
     # ---- structured frames
@@ -200,6 +203,8 @@ def check(ctx):
         if not rt and L and rnd.random() < 0.7:
             b[0] = rnd.choice([0x80, 0x50, 0x40, 0x00, 0x10, 0x20, 0x30, 0xa0, 0xc0, 0x08, 0x88, 0xb4, 0xd4])
         rl += all_ops(bytes(b), rt) + ["it " + hx(b), "crc " + hx(b)]
+        if L <= 300:
+            rl += ["ie rsn " + hx(b), "ie wpa " + hx(b)]
     fw.run_suite(ctx, exe, "S-safe/random", rl, "parse of a random string")
     # ---- the entry point without a length parameter on buffers shorter than the header announces (known finding D22)
     sl = ["rssi -", "rssi 00", "rssi 0000", "rssi 000008", "rssi 00000800", "rssi 00000c0020000000", "rssi 0000090020000000"]
